@@ -48,6 +48,71 @@ def arm_name(pc):
 FEATURE = {15: 'avx2', 14: 'avx', 10: 'sse4.1', 9: 'ssse3', 6: 'sse2'}
 
 
+def profile_of(config):
+    feats = list(build.CONFIGS[config][0])
+    return ('debug' if config.startswith('devchk') else 'release'), tuple(feats)
+
+
+def confirm(run, config, fname, args, model, key, what, exp=None, kind='mismatch', exp_ret=None, ufs=None):
+    """replay a solver counterexample natively (same profile, same simulated CPU feature set) and report it only if it
+    reproduces. exp: {buffer name: expected term}; kind: 'mismatch' | 'fault' | 'ret'"""
+    prof, feats = profile_of(config)
+    model = dict(model or {})
+    rp = entry.replay(fname, args, model, prof, feats, ufs=ufs)
+    payload = {'entry': fname, 'config': config, 'profile': prof, 'features': list(feats), 'cpu': entry.cpu_mask(model),
+               'args': entry.arg_hex(args, model, ufs), 'native': rp, 'kind': kind, 'what': what}
+    reproduced = False
+    if kind == 'fault':
+        reproduced = rp['status'] != 'ok'
+    elif kind == 'ret':
+        payload['expected_ret'] = exp_ret
+        reproduced = rp['status'] != 'ok' or (rp['ret'] is not None and str(rp['ret']) != str(exp_ret))
+    else:
+        ev = T.Evaluator(model, ufs)
+        want = []
+        for b in entry.mutable_bufs(args):
+            t = (exp or {}).get(b.name)
+            want.append(None if t is None else ev.val(t).to_bytes(b.size, 'little').hex())
+        payload['expected'] = want
+        if rp['status'] != 'ok':
+            reproduced = True
+        else:
+            for w, g in zip(want, rp['outputs']):
+                if w is not None and w != g:
+                    reproduced = True
+    if reproduced:
+        path = run.write_replay(key + '|' + what, payload)
+        run.violation(key, what + ' (native: %s)' % rp['status'], path)
+    else:
+        run.inconclusive.append('counterexample not reproduced natively: %s [%s]' % (what, key))
+    return reproduced
+
+
+def split_ret(r, values):
+    """case split on a (possibly symbolic) small return code: yields (code, path condition)"""
+    rv = r.ret
+    if T.is_const(rv):
+        return [(T.cval(rv), r.pc)]
+    out = []
+    w = T.width(rv)
+    for v in values:
+        c = T.eq(rv, T.const(v, w))
+        if T.is_const(c):
+            if T.cval(c):
+                out.append((v, r.pc))
+            continue
+        pcx = list(r.pc) + [(c, True)]
+        st, _ = check.pc_feasible(pcx)
+        if st != 'unsat':
+            out.append((v, pcx))
+    # anything outside the listed values?
+    rest = list(r.pc) + [(T.eq(rv, T.const(v, w)), False) for v in values if not T.is_const(T.eq(rv, T.const(v, w)))]
+    st, _ = check.pc_feasible(rest)
+    if st != 'unsat':
+        out.append((-1, rest))
+    return out
+
+
 def replay_file(pid, path):
     """re-run a stored counterexample natively against /repo's current tree; exit 1 if it still reproduces"""
     import json
@@ -57,14 +122,18 @@ def replay_file(pid, path):
     feats = tuple(d.get('features', ['std']))
     b = entry.replay_bin(prof, feats)
     env = dict(os.environ)
-    if d.get('backend'):
-        env['VERIF_BACKEND'] = d['backend']
+    if d.get('cpu') is not None:
+        env['VERIF_CPU'] = str(d['cpu'])
     p = subprocess.run([b, d['entry']] + d['args'], stdout=subprocess.PIPE, stderr=subprocess.PIPE, text=True, env=env)
     outs = [l for l in p.stdout.split('\n') if l and not l.startswith('ret=')]
     print('native run: exit=%d' % p.returncode, p.stderr.strip()[-300:])
     bad = False
-    if 'expected' in d and d['expected'] is not None:
-        bad = p.returncode != 0 or outs != d['expected']
+    ret = [l[4:] for l in p.stdout.split('\n') if l.startswith('ret=')]
+    if d.get('kind') == 'ret':
+        bad = p.returncode != 0 or (ret and ret[0] != str(d.get('expected_ret')))
+        print('expected ret:', d.get('expected_ret'), 'got:', ret)
+    elif d.get('expected') is not None:
+        bad = p.returncode != 0 or any(w is not None and w != g for w, g in zip(d['expected'], outs))
         print('expected:', d['expected'])
         print('got     :', outs)
     else:
